@@ -413,36 +413,38 @@ impl SlotVotes {
         |v: int| (self.notar@[v] is Some && pend != Pending::Notar(v)) || self.skip@[v] is Some
     }
 
-    // ASSUMED contracts of the five iterator-chain helpers: "the stored matching votes in index order".
-    #[verifier::external_body]
+    // Contracts of the five iterator-chain helpers: "the stored matching votes in index order".  They are PROVED on the
+    // real bodies (filter_map chain rewritten to its definition, R4) as the `<name>_body` functions of unit slot_state,
+    // with textually identical postconditions; here they are used as stubs.
+    #[verifier::external_body] /* proved-elsewhere */
     pub fn notar_votes(&self, block_hash: &BlockHash) -> (r: Vec<NotarVote>)
         ensures
             r@.len() == idx_where(self.notar@.len() as int, self.p_notar(*block_hash)).len(),
             forall|i: int| 0 <= i < r@.len() ==> Some(#[trigger] r@[i]) == self.notar@[idx_where(self.notar@.len() as int, self.p_notar(*block_hash))[i]],
     { unimplemented!() }
 
-    #[verifier::external_body]
+    #[verifier::external_body] /* proved-elsewhere */
     pub fn notar_fallback_votes(&self, block_hash: &BlockHash) -> (r: Vec<NotarFallbackVote>)
         ensures
             r@.len() == idx_where(self.notar_fallback@.len() as int, self.p_nf(*block_hash)).len(),
             forall|i: int| 0 <= i < r@.len() ==> #[trigger] r@[i] == self.notar_fallback@[idx_where(self.notar_fallback@.len() as int, self.p_nf(*block_hash))[i]]@[*block_hash],
     { unimplemented!() }
 
-    #[verifier::external_body]
+    #[verifier::external_body] /* proved-elsewhere */
     pub fn skip_votes(&self) -> (r: Vec<SkipVote>)
         ensures
             r@.len() == idx_where(self.skip@.len() as int, self.p_skip()).len(),
             forall|i: int| 0 <= i < r@.len() ==> Some(#[trigger] r@[i]) == self.skip@[idx_where(self.skip@.len() as int, self.p_skip())[i]],
     { unimplemented!() }
 
-    #[verifier::external_body]
+    #[verifier::external_body] /* proved-elsewhere */
     pub fn skip_fallback_votes(&self) -> (r: Vec<SkipFallbackVote>)
         ensures
             r@.len() == idx_where(self.skip_fallback@.len() as int, self.p_skip_fb()).len(),
             forall|i: int| 0 <= i < r@.len() ==> Some(#[trigger] r@[i]) == self.skip_fallback@[idx_where(self.skip_fallback@.len() as int, self.p_skip_fb())[i]],
     { unimplemented!() }
 
-    #[verifier::external_body]
+    #[verifier::external_body] /* proved-elsewhere */
     pub fn final_votes(&self) -> (r: Vec<FinalVote>)
         ensures
             r@.len() == idx_where(self.finalize@.len() as int, self.p_final()).len(),
